@@ -62,3 +62,38 @@ def assert_repo():
     here = os.path.realpath(os.path.dirname(os.path.dirname(sleap_nn.__file__)))
     if here != os.path.realpath(REPO):
         raise RuntimeError(f"sleap_nn imported from {here}, expected {REPO}")
+
+
+# ------------------------------------------------------------------------------
+# scratch space (never /tmp, never /verif): one root per top-level check process,
+# inherited by worker processes through the environment, removed by the runner.
+
+_OWN_SCRATCH = None
+
+
+def scratch_root():
+    global _OWN_SCRATCH
+    root = os.environ.get("VERIF_SCRATCH")
+    if not root:
+        import tempfile
+
+        base = "/var/tmp/vp-scratch"
+        os.makedirs(base, exist_ok=True)
+        root = tempfile.mkdtemp(prefix=f"run-{os.getpid()}-", dir=base)
+        os.environ["VERIF_SCRATCH"] = root
+        _OWN_SCRATCH = root
+    os.makedirs(root, exist_ok=True)
+    return root
+
+
+def scratch_dir(name):
+    import tempfile
+
+    return tempfile.mkdtemp(prefix=f"{name}-{os.getpid()}-", dir=scratch_root())
+
+
+def cleanup():
+    import shutil
+
+    if _OWN_SCRATCH:
+        shutil.rmtree(_OWN_SCRATCH, ignore_errors=True)
